@@ -76,6 +76,12 @@ class TemperatureUnitType(UnitType):
             return False
         return True
     
+    def _convert_Cel_Cel(self, value):
+        return value
+        
+    def _convert_degF_degF(self, value):
+        return value
+        
     def _convert_K_Cel(self, value):
         return value-273.15
         
@@ -182,6 +188,9 @@ class LogarithmicUnitType(UnitType):
     
     def _convert_B_B(self, value, exp=0):
         return value + exp
+        
+    def _convert_Np_Np(self, value):
+        return value
         
     def _convert_B_Np(self, value):
         return 1.151277918*value
